@@ -279,15 +279,31 @@ def family_objlist(tier, seed, n=None):
                                     FE("ol", "j", [{"k": "imp", "c": B("gt", IX("j"), lit(0)),
                                                     "body": [E(B(rnd.choice(["lt", "le", "ne"]), SUB("ol", B("sub", IX("j"), lit(1)), "x"),
                                                                  SUB("ol", IX("j"), "x")))]}], it=False, idx=True)]}]}
+        if t % 3 == 1:
+            # a condition on a field of an element of a NON-RANDOM object list (a configuration table): folded per iteration
+            top["fields"].append({"name": "cfg", "kind": "objlist", "cls": "Sub", "n": nobj, "rand": False})
+            c1, c2 = rnd.sample(range(4), 2)
+            fldn = rnd.choice(["z", "x"])        # x is declared random, but the table is not random in the call: a constant too
+            top["blocks"][0]["body"].append(
+                FE("cfg", "c", [{"k": "if", "arms": [{"c": B(rnd.choice(["eq", "ge"]), SUB("cfg", IX("c"), fldn), lit(rnd.choice([1, 2]))),
+                                                      "body": [E(B("ne", SUB("ol", IX("c"), "x"), lit(c1)))]}],
+                                 "els": [E(B("ne", SUB("ol", IX("c"), "x"), lit(c2)))]}], it=False, idx=True))
         if t % 3 == 2:
             # unique over two fields of EACH element, stated once inside a foreach
             top["blocks"][0]["body"].append(FE("ol", "u", [{"k": "uniq", "args": [SUB("ol", IX("u"), "x"), SUB("ol", IX("u"), "y")]}], it=False, idx=True)
                                             if t % 2 == 0 else FE("ol", "u", [{"k": "uniq", "args": [IT("u", "x"), IT("u", "y")]}]))
         world = {"classes": {"Sub": sub, "Top": top}, "population": [{"id": "o1", "cls": "Top"}]}
         paths = ["o1.a"] + ["o1.ol[%d].x" % i for i in range(nobj)] + (["o1.ol[%d].y" % i for i in range(nobj)] if t % 3 == 2 else [])
-        ops = [{"op": "construct", "o": "o1"}, {"op": "call", "call": mcall()}, {"op": "probe", "call": wcall(), "paths": paths},
-               {"op": "set", "p": "o1.ol[0].z", "v": bits(rnd.randrange(4), 2)}, {"op": "call", "call": mcall()},
-               {"op": "probe", "call": wcall(), "paths": paths}]
+        ops = [{"op": "construct", "o": "o1"}]
+        if t % 3 == 1:
+            for i in range(nobj):
+                ops += [{"op": "set", "p": "o1.cfg[%d].z" % i, "v": bits(rnd.randrange(4), 2)}, {"op": "set", "p": "o1.cfg[%d].x" % i, "v": bits(rnd.randrange(4), 2)}]
+        ops += [{"op": "call", "call": mcall()}, {"op": "probe", "call": wcall(), "paths": paths},
+                {"op": "set", "p": "o1.ol[0].z", "v": bits(rnd.randrange(4), 2)}, {"op": "call", "call": mcall()},
+                {"op": "probe", "call": wcall(), "paths": paths}]
+        if t % 3 == 1:
+            ops += [{"op": "set", "p": "o1.cfg[0].z", "v": bits(rnd.randrange(4), 2)}, {"op": "set", "p": "o1.cfg[0].x", "v": bits(rnd.randrange(4), 2)},
+                    {"op": "call", "call": mcall()}, {"op": "probe", "call": wcall(), "paths": paths}]
         out.append({"id": "L/obj/%s/%d" % ("core" if core else "s%d" % seed, t), "world": world, "ops": ops, "tags": []})
     return out
 
@@ -339,4 +355,34 @@ def family_objlist_randsz(tier, seed, n=None):
         ops.append({"op": "call", "call": wcall([E(B("eq", {"k": "size", "l": "ol"}, lit(nobj + 1)))])})     # more than populated: fails
         ops.append({"op": "call", "call": mcall()})
         out.append({"id": "L/objrs/%s/%d" % ("core" if core else "s%d" % seed, t), "world": world, "ops": ops, "tags": []})
+    return out
+
+
+def family_randsz_nested(tier, seed, n=None):
+    """random-size scalar lists owned by (a) a NON-RANDOM member object - a constant of the call, never resized - and (b) the
+    elements of an object list - each element's list sized and constrained on its own"""
+    out = []
+    n = n or (6 if tier == "quick" else 60)
+    for t in range(n):
+        rnd = random.Random((444 if t < n // 2 else 4500 + seed) * 100003 + t)
+        hi = rnd.choice([1, 2, 3])
+        sub = {"base": "", "fields": [fld("x", 2, False), list_field("l", 2, False, randsz=True, cap=5)],
+               "blocks": [{"name": "sc", "dynamic": False,
+                           "body": [E({"k": "in", "e": {"k": "size", "l": "l"}, "items": [{"k": "r", "lo": lit(rnd.choice([0, 1])), "hi": lit(hi)}], "neg": False}),
+                                    FE("l", "i", [E(B(rnd.choice(["ne", "le", "ge"]), IT("i"), F("x")))])]}]}
+        if t % 2 == 0:
+            top = {"base": "", "fields": [fld("a", 2, False), {"name": "s", "kind": "obj", "cls": "Sub", "rand": False},
+                                          {"name": "r", "kind": "obj", "cls": "Sub", "rand": True}],
+                   "blocks": [{"name": "c1", "dynamic": False, "body": [E(B("ne", F("a"), F("r.x")))]}]}
+            calls = [mcall(), mcall(), {"kind": "free", "roots": ["o1"], "owner": "", "inline": []}, mcall(),
+                     {"kind": "free", "roots": ["o1.s"], "owner": "", "inline": []}, mcall()]      # as a ROOT the member is random
+        else:
+            top = {"base": "", "fields": [fld("a", 2, False), {"name": "ol", "kind": "objlist", "cls": "Sub", "n": 2, "rand": True}],
+                   "blocks": [{"name": "c1", "dynamic": False, "body": [E(B("ne", F("ol[0].x"), F("ol[1].x")))]}]}
+            # (the size of an element's list cannot be named from the owner's with-block: the DSL has no such path)
+            calls = [mcall(), mcall(), wcall([E(B("ne", F("ol[0].x"), lit(1)))]), mcall(),
+                     {"kind": "free", "roots": ["o1.ol[1]"], "owner": "", "inline": []}, mcall()]
+        world = {"classes": {"Sub": sub, "Top": top}, "population": [{"id": "o1", "cls": "Top"}]}
+        ops = [{"op": "construct", "o": "o1"}] + [{"op": "call", "call": c} for c in calls]
+        out.append({"id": "L/rsnest/%s/%d" % ("member" if t % 2 == 0 else "elem", t), "world": world, "ops": ops, "tags": []})
     return out
